@@ -711,6 +711,11 @@ theorem sound_execAct {cfg : Cfg} {fs : FS} {rec : Runner} (hrec : RecSound rec)
     · rename_i hc
       simp only [Option.some.injEq, Prod.mk.injEq] at h; rw [← h.2.2]
       exact (sound_compoundLoop _ _ _ _ _ hc).trans (sound_exportIf _ _ _ _)
+  · -- export inside a callback
+    simp only [Option.some.injEq, Prod.mk.injEq] at h; rw [← h.2.2]
+    split
+    · exact Sound.refl s
+    · exact sound_setData _ _ s
   · -- assignment nested in a conditional
     split at h
     · simp only [Option.some.injEq, Prod.mk.injEq] at h; rw [← h.2.2]; exact Sound.refl s
@@ -958,6 +963,7 @@ def touches (al sa et : Bool) (k : Name) : Act → Bool
   | .compound k' _ _ => et && k' == k
   | .loopCompound _ k' _ _ => et && (k' == k || loopVar == k)
   | .condAssign _ k' _ => et && k' == k
+  | .cbExport _ k' => k' == k
   | _ => false
 
 def touchesT (al sa et : Bool) (k : Name) : TAct → Bool
@@ -1255,6 +1261,12 @@ theorem execAct_keeps {cfg : Cfg} {fs : FS} {rec : Runner} {a : Act} {fr fr' : F
       simp only [Option.some.injEq, Prod.mk.injEq] at h; rw [← h.2.2, ← h.2.1]
       refine ⟨?_, by rw [bind_exportTop, h2]⟩
       rw [exportIf_lookup_ne _ _ _ _ _ (fun hb => ht1.2 (by rw [← h2]; exact hb)), h1]
+  · simp only [Option.some.injEq, Prod.mk.injEq] at h; rw [← h.2.2, ← h.2.1]
+    simp only [touches, beq_eq_false_iff_ne] at ht
+    refine ⟨?_, rfl⟩
+    split
+    · rfl
+    · exact setData_lookup_ne _ _ _ _ (fun hh => ht hh.symm)
   · split at h
     · simp only [Option.some.injEq, Prod.mk.injEq] at h; rw [← h.2.2, ← h.2.1]
       exact ⟨rfl, by split <;> rfl⟩
@@ -1433,6 +1445,7 @@ theorem execAct_exportTop {cfg : Cfg} {fs : FS} {rec : Runner} {a : Act} {fr fr'
     · rename_i hc
       simp only [Option.some.injEq, Prod.mk.injEq] at h; rw [← h.2.1, bind_exportTop]
       exact compoundLoop_exportTop _ _ _ _ _ hc
+  · simp only [Option.some.injEq, Prod.mk.injEq] at h; rw [← h.2.1]
   · split at h
     · simp only [Option.some.injEq, Prod.mk.injEq] at h; rw [← h.2.1]; split <;> rfl
     · simp only [Option.some.injEq, Prod.mk.injEq] at h; rw [← h.2.1]; rfl
